@@ -139,6 +139,21 @@ def _via_files(obj, loader, what):
     path = scratch_dir() / f"in-{what}.json"
     path.write_text(json.dumps(obj))
     first = loader(str(path)), loader(path)
+    if _n[0] % 4 == 1:
+        # a RELATIVE location whose name merely looks like the start of a URL is still a local file
+        import os
+
+        name = ["http_map.json", "https-context.json", "ftp.json", "httpd/ftp_in.json"][(_n[0] // 4) % 4]
+        rel = scratch_dir() / name
+        rel.parent.mkdir(exist_ok=True)
+        rel.write_text(json.dumps(obj))
+        cwd = os.getcwd()
+        os.chdir(scratch_dir())
+        try:
+            first = loader(name), loader(Path(name))
+        finally:
+            os.chdir(cwd)
+            rel.unlink(missing_ok=True)
     if _n[0] % 3 == 0:  # and sometimes a fresh, never-seen name
         fresh = scratch_dir() / f"in-{what}-{_n[0]}.json"
         fresh.write_text(json.dumps(obj))
